@@ -21,6 +21,8 @@ def mk(name):
     import magpylib as magpy
 
     k = KIND[name]
+    if name == "b":   # a source that is complete as a tree member although it cannot compute a field yet (no field function)
+        return magpy.misc.CustomSource(style_label=name)
     if k == SRC:
         return magpy.magnet.Sphere(diameter=1, polarization=(0, 0, 1), style_label=name)
     if k == SENS:
@@ -423,15 +425,20 @@ def explore(names, seeds, max_depth, state_cap, key_prefix):
     ops = alphabet(names)
     seen = {}
     frontier = []
+    viols = []
     for h in seeds:
         objs = replay_history(names, h)
-        assert not invariant(objs), ("seed history inconsistent", h)
+        errs0 = invariant(objs)
+        if errs0:   # the start state itself breaks the invariant: a finding, not expanded
+            if h:
+                viols.append({"key": f"{key_prefix}|{h[-1][0]}|ok|{'+'.join(errs0)}", "what": f"start history {list(h)}: {list(errs0)}",
+                              "case": {"names": names, "history": [list(x) for x in h[:-1]], "op": list(h[-1])}, "observed": list(errs0)})
+            continue
         c = canon(objs)
         if c not in seen:
             seen[c] = tuple(h)
             frontier.append(c)
     stats = dict(transitions=0, outcomes={}, inconsistent=0, phantom_states=0, max_depth=0, cap_hit=False)
-    viols = []
     depth = 0
     samples = []
     while frontier and depth < max_depth:
